@@ -647,8 +647,39 @@ def ret_aggregates(fn):
     for bi in sorted(fn.live):
         for si, s in enumerate(fn.blocks[bi]["stmts"]):
             if s["k"] == "assign" and s["lhs"]["l"] == 0 and not s["lhs"]["p"]:
-                out.append((bi, si, s["rv"]))
+                rv = s["rv"]
+                # `_0 = move _t` where _t is the value a folded-in helper returned (`return self.timed_out()`): the
+                # aggregate(s) the helper built stand for the assignment, at their own site
+                pl = (rv["use"].get("move") or rv["use"].get("copy")) if isinstance(rv.get("use"), dict) else None
+                if pl is not None and not pl["p"]:
+                    src = _agg_defs(fn, pl["l"])
+                    if src:
+                        out.extend(src)
+                        continue
+                out.append((bi, si, rv))
     return out
+
+
+def _agg_defs(fn, l, depth=0):
+    """Aggregate definitions of local l (through moves), or [] if any definition is something else."""
+    res = []
+    ds = fn.defs.get(l, [])
+    if not ds or depth > 4:
+        return []
+    for dbi, dsi, kind, rv in ds:
+        if kind != "assign" or not isinstance(rv, dict):
+            return []
+        if rv.get("agg"):
+            res.append((dbi, dsi, rv))
+            continue
+        pl = (rv["use"].get("move") or rv["use"].get("copy")) if isinstance(rv.get("use"), dict) else None
+        if pl is None or pl["p"]:
+            return []
+        sub = _agg_defs(fn, pl["l"], depth + 1)
+        if not sub:
+            return []
+        res.extend(sub)
+    return res
 
 
 def bool_param(fn):
